@@ -9,7 +9,7 @@
 //	       first message of a fresh connection: one record per connection
 //
 // The peer frames messages itself ([len32][id][body]) and encodes bodies with the reflection encoder.
-// Usage: syncrec <out.ndjson> <seed> <count> <sync|intro|converge|gossip> [scripts.json]
+// Usage: syncrec <out.ndjson> <seed> <count> <sync|intro|converge|gossip|peers> [scripts.json]
 package main
 
 import (
@@ -155,6 +155,8 @@ func freePort() int {
 	return l.Addr().(*net.TCPAddr).Port
 }
 
+var pexMax int // > 0: the peer list bound of the next node (mode peers)
+
 func startNode(dir string, c *chain, blocksRequestRate time.Duration) *node {
 	db, err := visor.OpenDB(filepath.Join(dir, fmt.Sprintf("f-%d.db", rng.Int63())), false)
 	if err != nil {
@@ -192,6 +194,9 @@ func startNode(dir string, c *chain, blocksRequestRate time.Duration) *node {
 	dc.Pex.AllowLocalhost = true
 	dc.Pex.RequestRate, dc.Pex.CullRate, dc.Pex.ClearOldRate = hours, hours, hours
 	dc.Pex.DefaultConnections = nil
+	if pexMax > 0 {
+		dc.Pex.Max = pexMax
+	}
 	gnet.EraseMessages() // daemon.New registers the message types in a process-wide table; one node at a time lives here
 	d, err := daemon.New(dc, v)
 	if err != nil {
@@ -699,7 +704,7 @@ func runIntro(dir string, c *chain, count int) {
 
 func main() {
 	if len(os.Args) < 5 {
-		log.Fatal("usage: syncrec <out.ndjson> <seed> <count> <sync|intro|converge|gossip> [scripts.json]")
+		log.Fatal("usage: syncrec <out.ndjson> <seed> <count> <sync|intro|converge|gossip|peers> [scripts.json]")
 	}
 	if os.Getenv("VERIF_LOG") == "" {
 		logging.Disable()
@@ -749,6 +754,11 @@ func main() {
 	case "intro":
 		c := makeChain(dir, 1)
 		runIntro(dir, c, count)
+	case "peers":
+		c := makeChain(dir, 1)
+		for i := 0; i < count; i++ {
+			runPeers(dir, c, i, 20, []int{4, 6, 9, 1000}[rng.Intn(4)])
+		}
 	case "gossip":
 		c := makeChain(dir, 4)
 		for i := 0; i < count; i++ {
